@@ -17,6 +17,12 @@ SPECIFICATION GrowSpec
 INVARIANTS
   Inv_RoutesWellFormed
   Inv_AllServeProps
+  Inv_ServeIsCode
+  Inv_RouteOrderRespected
+  Inv_HostOrderRespected
+  Inv_RedirectExact
+  Inv_WsProxiedIffConfigured
+  Inv_IndependentOfRest
   Inv_LogMasks
   Inv_LinesMonotone
   Inv_CacheCoherent
